@@ -12,6 +12,7 @@ import (
 	"go/ast"
 	"go/token"
 	"path/filepath"
+	"strconv"
 	"strings"
 )
 
@@ -219,6 +220,7 @@ func translateFormulas(repo string, writeImp func(string, string, string)) {
 	}
 	b.WriteString("def equalBody : List String := [" + quoteAll(facts) + "]\n")
 	b.WriteString(translateSqrtChain(repo))
+	b.WriteString(translateMsmInstances(repo))
 	writeImp("Formulas.lean", "", b.String())
 }
 
@@ -293,4 +295,49 @@ func translateSqrtChain(repo string) string {
 	}
 	return "def sqrtChainHelper : String := " + leanString(helper) + "\n" +
 		"def sqrtChain : List (String × String × String × String × Nat) := [\n  " + strings.Join(ops, ",\n  ") + "]\n"
+}
+
+// translateMsmInstances: the template instances msmC<k> of multiexp.go and the dispatch switch,
+// as normalised statement lists (comments dropped, whitespace collapsed)
+func translateMsmInstances(repo string) string {
+	f := parse(filepath.Join(repo, "bandersnatch/multiexp.go"))
+	norm := func(n ast.Node) string { return strings.Join(strings.Fields(nodeStr(n)), " ") }
+	var insts []string
+	for _, d := range f.Decls {
+		fd, ok := d.(*ast.FuncDecl)
+		if !ok || !strings.HasPrefix(fd.Name.Name, "msmC") || fd.Recv != nil {
+			continue
+		}
+		k := strings.TrimPrefix(fd.Name.Name, "msmC")
+		if _, err := strconv.Atoi(k); err != nil {
+			continue
+		}
+		var stmts []string
+		stmts = append(stmts, norm(fd.Type))
+		for _, s := range fd.Body.List {
+			if ds, ok := s.(*ast.DeclStmt); ok {
+				if gd, ok := ds.Decl.(*ast.GenDecl); ok {
+					gd.Doc = nil
+					for _, sp := range gd.Specs {
+						if vs, ok := sp.(*ast.ValueSpec); ok {
+							vs.Doc, vs.Comment = nil, nil
+						}
+					}
+				}
+			}
+			stmts = append(stmts, norm(s))
+		}
+		insts = append(insts, "("+k+", ["+quoteAll(stmts)+"])")
+	}
+	// dispatch: case k -> call
+	var cases []string
+	inner := findFunc(f, "msmInnerPointProj")
+	ast.Inspect(inner, func(n ast.Node) bool {
+		if cc, ok := n.(*ast.CaseClause); ok && len(cc.List) == 1 && len(cc.Body) == 1 {
+			cases = append(cases, "("+exprStr(cc.List[0])+", "+leanString(norm(cc.Body[0]))+")")
+		}
+		return true
+	})
+	return "def msmInstances : List (Nat × List String) := [\n  " + strings.Join(insts, ",\n  ") + "]\n" +
+		"def msmDispatch : List (Nat × String) := [" + strings.Join(cases, ", ") + "]\n"
 }
